@@ -19,18 +19,24 @@ What is proved, for all heaps, datasets, indices and operation sequences (no bou
                         statement: one and the same `idx` acts on every column.
 * `pick_mask_in_order`, `pick_ints_in_order`   `pick` keeps the selected rows in order.
 * `extend_counts`       `extend` of `n` rows by `m` rows gives `n + m` everywhere (missing fields and
-                        one-sided attachments are padded), `insert_at_end_appends` / `pad_front` say
-                        where the rows go at the array level.
+                        one-sided attachments are padded); `insert_splices_rows`, `insert_at_end_appends`,
+                        `pad_front`, `extend_float_converts_units` say where the rows go and how units
+                        are converted, array by array.
 * `sort_is_stable_permutation`, `sort_refines`   merge-with-sort permutes every column by one
                         permutation of the row numbers that is sorted by key and stable.
 * `subset_count_not_sum` the negation witness for the code as it was (`num_obs = sum(idx)`).
 
+* `subset_keeps_sharing` one function from old to new array objects describes what every time / position /
+                        delta field holds after `subset` (and after the sort of `merge_with`): fields
+                        that shared an object share the new one — the memo re-creates it exactly once.
+
 Not proved (measured by the correspondence and the property oracle only): the content half of the
 refinement for `extend` (`abs (extend d e) = abs d ++ pad (abs e)` incl. unit factors — only the row
-counts and the array-level splice are theorems), that objects shared between fields stay shared
-(`sharing_preserved`), and `difference`, which is not in the model.
+counts and the array-level splice are theorems), sharing under `extend` and the identity of
+*attached* objects with fields (`p.other is q` — the images of the attachments are proved, that the
+image is the object field `q` now holds is not), and `difference`, which is not in the model.
 -/
-import Midgard.Proofs.DatasetOpsRect
+import Midgard.Proofs.DatasetExtendRows
 
 namespace Midgard.Props.C09
 open Midgard.Dataset
@@ -105,6 +111,21 @@ theorem subset_count_not_sum :
     pick (.ints [3, 2, 1, 3]) [10, 11, 12, 13] = .ok [13, 12, 11, 13] := by
   refine ⟨rfl, by decide, rfl⟩
 
+/-- **sharing under `subset`**: if the heap objects of the leaves have the kinds of their fields (as
+`add` establishes), there is one map `σ` from old to new objects such that every leaf of a
+memo-using kind (time, time delta, position, posvel, the deltas) that held `o` holds `σ o` afterwards,
+at every nesting depth — two fields that were the same object are the same object again. -/
+theorem subset_keeps_sharing (idx : Index) (h : Heap) (d : DS) (h' : Heap) (d' : DS)
+    (hok : dsSubset idx h d = .ok (h', d')) (hk : KindsOK.KindsOKs h d.fields) :
+    ∃ σ : Nat → Option Nat, LeafMap.LeafMaps σ d.fields d'.fields :=
+  dsSubset_sharing idx h d h' d' hok hk
+
+/-- the memo registers what it re-creates and never forgets the registration of an array object of a
+memo-using kind (the mechanism behind `subset_keeps_sharing`) -/
+theorem memo_registers (idx : Index) (fuel o : Nat) (s : St) (o' : Nat) (s' : St)
+    (h : subsetObj idx fuel o s = .ok (o', s')) : s'.find o = some o' ∧ PersistK s s' :=
+  ⟨(subsetObj_reg idx fuel o s o' s' h).2.2, (subsetObj_reg idx fuel o s o' s' h).2.1⟩
+
 /-! ### extend -/
 
 /-- `Dataset.extend`: `n` rows extended by `m` rows are `n + m` rows in every field, nested field
@@ -125,6 +146,25 @@ theorem insert_counts (n m : Nat) (fuel a pos b : Nat) (s : St) (r : Nat) (s' : 
     (h : insertObj fuel a pos b s = .ok (r, s')) (hm : MemoGood (n + m) s) (ga : Good s.heap n a)
     (gb : Good s.heap m b) : Good s'.heap (n + m) r ∧ HeapExt s.heap s'.heap :=
   ⟨(insertObj_spec n m fuel a pos b s r s' h hm ga gb).2, (insertObj_spec n m fuel a pos b s r s' h hm ga gb).1.1⟩
+
+/-- `insert(a, pos, b, memo)` of two arrays the memo has not seen: the rows of `a` with the rows of `b`
+spliced in at `pos` (= appended, by `insert_at_end_appends`, for a field of a rectangular table) -/
+theorem insert_splices_rows (fuel a pos b : Nat) (s : St) (r : Nat) (s' : St)
+    (h : insertObj (fuel + 1) a pos b s = .ok (r, s')) (ha : s.find a = none) (hb : s.find b = none) :
+    ∃ oa ob orr, s.heap[a]? = some oa ∧ s.heap[b]? = some ob ∧ s'.heap[r]? = some orr ∧
+      orr.rows = insertAt oa.rows pos ob.rows ∧ orr.kind = oa.kind :=
+  insertObj_rows fuel a pos b s r s' h ha hb
+
+/-- extending a float field: the other field's rows, each column multiplied by the unit factor
+`Unit(other unit, own unit)` of that column, spliced in at the field's `num_obs` ("unit conversion for
+differing units") -/
+theorem extend_float_converts_units (us : Units) (nm : String) (o no : Nat) (u : Option (List String)) (l : Nat)
+    (nm2 : String) (o2 no2 : Nat) (u2 : Option (List String)) (l2 : Nat) (s : St) (f' : Field) (s' : St)
+    (h : extendLeaf us nm .float o no u l (.leaf nm2 .float o2 no2 u2 l2) s = .ok (f', s')) :
+    ∃ oa ob fs o' no' orr, s.heap[o]? = some oa ∧ s.heap[o2]? = some ob ∧ unitFactors us u u2 = .ok fs ∧
+      f' = .leaf nm .float o' no' u l ∧ s'.heap[o']? = some orr ∧
+      orr.rows = insertAt oa.rows no (ob.rows.map (scaleRow fs)) :=
+  extend_float_rows us nm o no u l nm2 o2 no2 u2 l2 s f' s' h
 
 /-! ### merge with sort -/
 
@@ -160,9 +200,13 @@ end Midgard.Props.C09
 #print axioms Midgard.Props.C09.pick_mask_in_order
 #print axioms Midgard.Props.C09.pick_ints_in_order
 #print axioms Midgard.Props.C09.subset_count_not_sum
+#print axioms Midgard.Props.C09.subset_keeps_sharing
+#print axioms Midgard.Props.C09.memo_registers
 #print axioms Midgard.Props.C09.extend_counts
 #print axioms Midgard.Props.C09.insert_at_end_appends
 #print axioms Midgard.Props.C09.pad_front
 #print axioms Midgard.Props.C09.insert_counts
+#print axioms Midgard.Props.C09.insert_splices_rows
+#print axioms Midgard.Props.C09.extend_float_converts_units
 #print axioms Midgard.Props.C09.sort_is_stable_permutation
 #print axioms Midgard.Props.C09.sort_refines
